@@ -6,6 +6,7 @@ from . import driver as D
 from . import props as P
 from . import kani as K
 from . import emit_l1 as L1
+from . import emit_l3 as L3
 
 COMMON_ASSUMPTIONS = [
     "the program verified is rustc's MIR of the real derive expansion (Kani's pinned nightly, dev profile, overflow checks on), translated by kani-compiler 0.68 and decided by CBMC 6.11 + CaDiCaL",
@@ -59,6 +60,11 @@ def run_engine_a_property(pid, tier, seed):
     if pid == "C01":
         # lemma: the run table every with-holes function trusts, with SYMBOLIC discriminants
         L1.engine_c(rep, 4 if tier == "quick" else 8, ht)
+    if pid in ("C01", "C02", "C05"):
+        # the bodies of next/next_back/try_from/TryFrom over SYMBOLIC run layouts (all 12 reprs)
+        L3.engine_c3(rep, {"C01": ["try_from", "TryFrom"], "C05": ["next", "next_back"],
+                           "C02": ["next", "next_back", "try_from", "TryFrom"]}[pid],
+                     3 if tier == "quick" else 5, ht)
     if pid in ("C03", "C07", "C04"):
         # the table-index arithmetic with SYMBOLIC run layouts (all 12 reprs)
         L1.engine_c2(rep, {"C03": ["as_str_fn"], "C07": ["range_fn"], "C04": ["from_str_fn", "from_str_trait"]}[pid],
